@@ -341,6 +341,28 @@ func init() {
 					}
 				}
 			}
+			// no service is declared at all (parameters only, decorators only, nothing but meta); both modes
+			for ni, mk := range []func() *Cfg{
+				func() *Cfg {
+					return &Cfg{Meta: stdMeta(), Params: []Param{{"a", 1}, {"b", "%a%-%fnStr()%"}, {"c", `%env("X", "d")%`}}}
+				},
+				func() *Cfg { return &Cfg{Meta: stdMeta(), Params: []Param{{"a", nil}}} },
+				func() *Cfg { return &Cfg{Meta: stdMeta()} },
+				func() *Cfg { return &Cfg{Meta: &Meta{Pkg: P("gen")}} },
+				func() *Cfg {
+					return &Cfg{Meta: stdMeta(), Params: []Param{{"a", 1}}, Decorators: []Decorator{{Tag: "nobody", Decorator: "pk.Dec1", Args: []any{"%a%"}}}}
+				},
+				func() *Cfg { return &Cfg{Meta: stdMeta(), Services: []Service{{Name: "onlyTodo", Todo: P(true)}}} },
+			} {
+				for stub := 0; stub < 2; stub++ {
+					ni, mk, stub := ni, mk, stub
+					id := fmt.Sprintf("no-services/%d/stub=%d", ni, stub)
+					w.Case(id, func(c *C) {
+						cfg := mk()
+						evalCfg(c, id, cfg, []File{{"c.yaml", cfg.YAML()}}, false, stub == 1)
+					})
+				}
+			}
 			// how a registered function names its package x how often it is used (0, 1, 2, 3 times) x both modes
 			for _, ff := range []struct {
 				id, fn string
